@@ -136,7 +136,7 @@ def check_b(ck, repo):
     return n
 
 
-def check_c(ck, repo):
+def check_c(ck, repo, rule="C04.c"):
     fi = repo.func("mlinsights.mlmodel.sklearn_testing", "clone_with_fitted_parameters")
     ck.touch(fi)
     COPY = {"clone_with_fitted_parameters", "deepcopy", "copy.deepcopy", "clone"}
@@ -149,9 +149,9 @@ def check_c(ck, repo):
                 v = c.args[2]
                 ok = isinstance(v, ast.Call) and (src_of(v.func) in COPY)
                 if ok:
-                    ck.holds("C04.c", g, enclosing_stmt(c), "installed value is produced by a copying call")
+                    ck.holds(rule, g, enclosing_stmt(c), "installed value is produced by a copying call")
                 else:
-                    ck.violated("C04.c", g, enclosing_stmt(c), f"the clone receives {src_of(v)[:50]!r} itself: original and clone share fitted state, so using one changes the other")
+                    ck.violated(rule, g, enclosing_stmt(c), f"the clone receives {src_of(v)[:50]!r} itself: original and clone share fitted state, so using one changes the other")
     # every assignment to the returned variable builds a new object
     rets = [s for s in own_nodes(fi.node) if isinstance(s, ast.Return)]
     for r in rets:
@@ -181,12 +181,12 @@ def check_c(ck, repo):
                             if not (isinstance(sub.value, ast.Call) and src_of(sub.value.func) in COPY):
                                 inner_ok = False
                     if fresh and inner_ok:
-                        ck.holds("C04.c", fi, s, "result is a new object built from copies")
+                        ck.holds(rule, fi, s, "result is a new object built from copies")
                     else:
-                        ck.violated("C04.c", fi, s, "the value returned may be (or contain) the original object")
+                        ck.violated(rule, fi, s, "the value returned may be (or contain) the original object")
         else:
             n += 1
-            ck.violated("C04.c", fi, r, "returns an expression that is not the freshly built result")
+            ck.violated(rule, fi, r, "returns an expression that is not the freshly built result")
     return n
 
 
